@@ -125,6 +125,7 @@ var tableTargets = [][2]string{
 	{"Session", "notify"},
 	{"Session", "GetHosts"}, {"Session", "purge"}, {"Session", "DHCPv4IPOffer"}, {"Session", "Notify"},
 	{"Host", "UpdateDHCP4Name"}, {"Session", "DHCPv4Update"}, {"Session", "SetDHCPv4IPOffer"},
+	{"Host", "UpdateLLMNRName"}, {"Host", "UpdateMDNSName"}, {"Host", "UpdateSSDPName"}, {"Host", "UpdateNBNSName"},
 	{"Session", "Capture"}, {"Session", "Release"},
 }
 
